@@ -12,6 +12,19 @@ from . import tlc
 from .core import Tally
 
 
+def raised_in_library(frames):
+    """walking from the innermost frame outwards, the first frame that belongs either to the library or to the harness decides who raised:
+    the library (also when the exception surfaced in the standard library it called: open(), copyfile(), struct ...) - returns that
+    frame - or the harness itself (None)"""
+    for fr in reversed(frames):
+        fn = fr.filename.replace("\\", "/")
+        if "/vlib/" in fn:
+            return None
+        if "/probables/" in fn:
+            return fr
+    return None
+
+
 def safe_edge(ctx, t, modname, e):
     """executes one emitted transition; an exception that escapes from the LIBRARY on a call the model allows (innermost frame in the
     repository's package) is a verdict on the code - clause <focus>.unexpected_exception - and not a failure of the machinery;
@@ -25,10 +38,11 @@ def safe_edge(ctx, t, modname, e):
             t.extra["skipped_unmodelled"] = t.extra.get("skipped_unmodelled", 0) + 1      # model treats as rejected): not judged further
             return
         frames = traceback.extract_tb(exc.__traceback__)
-        inner = frames[-1].filename if frames else ""
-        if "/probables/" not in inner.replace("\\", "/") or "/vlib/" in inner:
+        fr = raised_in_library(frames)
+        if fr is None:
             raise
-        where = f"{inner.split('/probables/')[-1]}:{frames[-1].lineno}"
+        inner = fr.filename
+        where = f"{inner.split('/probables/')[-1]}:{fr.lineno}"
         t.fail(t.focus, f"{t.focus}.unexpected_exception", modname.split(".")[-1],
                {"raised": repr(exc), "where": where, "history": e.get("h"), "op": e.get("a"), "note": "a public call on a state the model allows raised inside the library"},
                {"where": where.split(":")[0], "type": type(exc).__name__})
